@@ -12,13 +12,16 @@ RULE = ('(1) options matrix: every entry point x every documented option given p
         '(2) explicit-state BFS over histories set_global / del_global / call(entry, per-call options or none) to depth 3: on '
         'every call the bit images of all arguments, the options dictionaries and the module dictionaries are unchanged and the '
         'result is bit-identical to the same call made first in a fresh interpreter; (3) stateless schedule exploration of two '
-        'threads that each run one solve with their own options=: all schedules with <= 1 preemption at line granularity '
-        '(thorough: <= 2 at call granularity, 3 threads): every thread obtains bit-identically its sequential result. '
+        'threads that each run one solve with their own options=: all schedules with <= 1 preemption at line granularity, '
+        'among them two SDP solves with equal block orders with every line of misc.py a scheduling point '
+        '(thorough: also <= 2 preemptions at call granularity): every thread obtains bit-identically its sequential result; '
+        '(4) the per-call tolerances are the ones applied (certificate oracles of C01-C04 at tolerance sets in which the three '
+        'tolerances differ); (5) a caller-owned start point object is left unchanged. '
         'non-trivial = calls compared with the fresh-interpreter reference, schedules with a preemption')
 ASSUME = ['a C call (BLAS/LAPACK, with the GIL released) is atomic for the schedule explorer; only one thread runs between scheduling points',
           'fresh-interpreter reference results are computed in a separate python process per case',
           'entry points without an iterations field (cpl, cp, gp) are checked through result identity only']
-BOUNDS = {'quick': '10 entry points x 6 options; histories depth 3; 1 thread pair with 1 preemption at every line-granularity point of both threads, 1 mixed pair (coneqp, cpl) with 1 preemption at every call-granularity point',
+BOUNDS = {'quick': '10 entry points x 6 options; histories depth 3; thread pairs (lp, lp) at every line of cvxopt/*.py and (sdp, sdp) at every line of misc.py with 1 preemption at every point of both threads, 1 mixed pair (coneqp, cpl) with 1 preemption at every call-granularity point',
           'thorough': 'histories depth 4; 3 line-granularity pairs, 6 call-granularity pairs, 2 preemptions at call granularity for 2 pairs (first preemption at points 0..119 of the start thread, second at points 0..119 of the other thread: option parsing, argument conversion and the first iterations of both solves)'}
 TECHNIQUE = 'preemption-bounded exhaustive schedule exploration (CHESS style) + explicit-state BFS over option/call histories + exhaustive options matrix'
 
